@@ -15,6 +15,7 @@ import (
 	"fmt"
 	"math/rand/v2"
 	"os"
+	"runtime"
 	"sort"
 	"strings"
 	"sync"
@@ -53,6 +54,7 @@ type config struct {
 	Fault     bool // the k-th batch commit of some prunes fails with an injected write error
 	Readers   int
 	Store     string // database under the pruned node: memory | pebble (crash images are always replayed into memory)
+	LateL1    bool   // no L1 head arrives until 3/4 of the chain is stored; the first one then overtakes the restarted node's first event query
 }
 
 type world struct {
@@ -94,7 +96,7 @@ type world struct {
 	// the prune target (<= bound) until the next restart: state refusals in [on-disk floor-1,
 	// refuseBelow-1) are the node reporting "pruned" for blocks its floor covers - counted, not judged
 	refuseBelow uint64
-	cancelFn     atomic.Pointer[func()]
+	cancelFn    atomic.Pointer[func()]
 
 	gate   sync.RWMutex // readers hold R during a mini probe; chain mutations hold W
 	shared readerShared
@@ -217,6 +219,10 @@ func (w *world) deliver(desc string, send func() error) (eventResult, bool) {
 		return res, false
 	}
 	if qerr != nil {
+		if os.Getenv("VERIF_C16_DUMP") != "" {
+			buf := make([]byte, 1<<20)
+			fmt.Fprintf(os.Stderr, "case %d: event not handled (%s)\n%s\n", w.idx, desc, buf[:runtime.Stack(buf, true)])
+		}
 		w.r.Inconclusive("watchdog:event-not-handled")
 		w.dead = true
 		return res, false
@@ -543,6 +549,7 @@ func makeConfig(r *lib.Run, idx int, rng *rand.Rand) config {
 	if r.Race {
 		c.Readers = 2
 	}
+	c.LateL1 = rng.IntN(4) == 0
 	return c
 }
 
@@ -756,6 +763,78 @@ func runScenario(r *lib.Run, idx int) {
 		b := w.main.Blocks[n].Block
 		afterEvent(ev, func(s *session, _ *blockchain.Blockchain) error { s.heads.Send(b); return nil })
 	}
+	// directed interleaving: the node has just been restarted (nothing cached, the running event
+	// filter not yet rebuilt); its first event query - over blocks that stay retained - has done k
+	// point reads (through the store or a snapshot of it) when an L1 head arrives and the pruner
+	// deletes everything the configuration allows, all of it before the query's next read. The
+	// event is delivered from inside the store's Get on the query's goroutine; the pruner works
+	// on its own goroutine as always.
+	doL1Overtaking := func(n uint64) {
+		if w.pos < 3 {
+			doL1(n)
+			return
+		}
+		if !w.restart() {
+			return
+		}
+		w.cancelAt.Store(0)
+		w.failAt.Store(0)
+		w.failFired.Store(false)
+		k := int64(1 + rng.IntN(pick(rng, 3, 10, 40)))
+		// the query starts at or above the floor this event can lead to, mostly right at it
+		from := uint64(0)
+		if n < w.head() && n >= cfg.Retained {
+			from = n - cfg.Retained
+		}
+		from = max(from, w.bound)
+		if from < w.head() && rng.IntN(3) == 0 {
+			from += uint64(rng.IntN(int(w.head()-from) + 1))
+		}
+		from = min(from, w.head())
+		var cnt atomic.Int64
+		var ev eventResult
+		var ok, fired bool
+		me := lib.GoID()
+		w.rec.SetOnRead(func([]byte) {
+			if lib.GoID() != me { // the pruner service reads too (start-up, every event)
+				return
+			}
+			if cnt.Add(1) == k {
+				w.rec.SetOnRead(nil)
+				fired = true
+				ev, ok = w.sendL1(n)
+			}
+		})
+		got := eventsFrom(w.bc.Load(), from, nil)
+		w.rec.SetOnRead(nil)
+		if !fired {
+			w.r.Count("directed.query_finished_before_the_chosen_read", 1)
+			doL1(n)
+			return
+		}
+		w.r.Count("directed.first_query_after_restart_overtaken_by_an_L1_event", 1)
+		if os.Getenv("VERIF_C16_DUMP") != "" {
+			fl, _ := pruner.OldestRetainedBlock(w.rec)
+			fmt.Fprintf(os.Stderr, "case %d directed: late=%v n=%d head=%d k=%d from=%d retained=%d minage=%d bound=%d floor-after=%d commits=%d got=%.60s\n", w.idx, cfg.LateL1, n, w.head(), k, from, cfg.Retained, cfg.MinAgeH, w.bound, fl, w.batchCommits.Load(), got)
+		}
+		if w.dead || !ok {
+			return
+		}
+		if ev.i1 > ev.i0 && w.batchCommits.Load() > 0 {
+			w.r.Count("directed.first_query_after_restart_overtaken_by_a_prune_that_deleted", 1)
+		}
+		if from >= w.bound {
+			w.r.Eval(1)
+			want := eventsFrom(w.twin.BC, from, nil)
+			switch {
+			case isErr(got):
+				w.violation("directed:event-query-over-retained-blocks-fails-while-a-prune-commits", fmt.Sprintf("first event query after a restart, over [%d, head %d] (never prunable: bound %d); after its read #%d L1 head %d arrived and the pruner ran: %s", from, w.head(), w.bound, k, n, got), nil)
+			case got != want:
+				w.violation("directed:event-query-over-retained-blocks-wrong-while-a-prune-commits", fmt.Sprintf("first event query after a restart, over [%d, head %d]; after its read #%d L1 head %d arrived and the pruner ran: answer differs from the unpruned twin's", from, w.head(), k, n), nil)
+			}
+		}
+		afterEvent(ev, func(s *session, bc *blockchain.Blockchain) error { return bc.SetL1Head(w.l1HeadFor(n)) })
+	}
 	pickL1 := func() uint64 {
 		if w.pos == 0 {
 			return uint64(rng.IntN(5))
@@ -794,8 +873,22 @@ func runScenario(r *lib.Run, idx int) {
 				}
 			}
 		case x < 39:
+			if cfg.LateL1 && w.l1 < 0 {
+				// the whole backlog is pruned by one event - and that event overtakes a query
+				if w.pos >= cfg.ChainLen*3/4 {
+					doL1Overtaking(w.head() - 1)
+				}
+				continue
+			}
 			n := pickL1()
-			doL1(n)
+			if rng.IntN(5) == 0 {
+				if rng.IntN(2) == 0 && w.pos > 1 {
+					n = w.head() - 1 // the largest step the configuration allows (an L1 head at or above the local head prunes nothing)
+				}
+				doL1Overtaking(n)
+			} else {
+				doL1(n)
+			}
 			if rng.IntN(5) == 0 && !w.dead {
 				doL1(n) // duplicate
 			}
@@ -951,7 +1044,6 @@ func (w *world) restart() bool {
 	w.logf("restart")
 	return w.startSession()
 }
-
 
 func TestC16(t *testing.T) {
 	r := lib.Start("C16", "fault_enumeration")
